@@ -107,6 +107,10 @@ func newScenario(cfg []string) (hx.Handler, string) {
 		fwd.ServeHTTP(w, r)
 	})
 	s.srv = httptest.NewUnstartedServer(wrap)
+	if ln, err := fx.Listen(); err == nil {
+		s.srv.Listener.Close()
+		s.srv.Listener = ln
+	}
 	s.srv.Config.ErrorLog = log.New(io.Discard, "", 0)
 	s.srv.Start()
 	return s, "ok"
